@@ -8,10 +8,14 @@ Summary of what the model (bug-compatibly) does:
   attributes are combined; `.int` is a MAGNITUDE, the `negative` flag of an operand is never consulted;
 * the Python int is printed with `"{}".format` and re-read by the STRING constructor, so the range is
   −32768..65535 and everything outside is an error; division by zero is an error;
+* the mode of the result is extended if an operand is, else direct — except that a result above 255 is extended
+  whatever the operands were (fix A13: `$80+$80` used to become a truncated direct operand);
 * `calculate_address_offset` always computes `address op constant`, on whichever side the address is; the
   constant is a number or (since fix 9045646) the ADDRESS of a second label; anything else is a diagnostic.
 -/
 import CoCoVerif.Lemmas.EncodeExpr
+import CoCoVerif.Lemmas.EncodeWitness
+import CoCoVerif.Lemmas.EncodeProgram
 
 namespace CoCo.Props
 open CoCo CoCo.Asm
@@ -50,7 +54,8 @@ theorem numResult_spec (m : Mode) (z : Int) :
 
 /-! ### `resolve` on two numeric operands, operator by operator
 
-`m := exprMode ma mb` is `.extended` if either operand is extended or explicit-extended, else `.direct`;
+`exprMode ma mb` is `.extended` if either operand is extended or explicit-extended, else `.direct`;
+`resMode ma mb z` (the mode of a result `z`) is `.extended` for `z > 255` and `exprMode ma mb` otherwise (fix A13);
 `posNum m n = .numeric n (if m = .extended then some 4 else if n < 256 then some 2 else none) m false`,
 `negNum m n = .numeric n (if m = .extended then some 4 else none) m true`.
 The neg flags `na nb` of the operands do not occur on the right-hand sides: the model ignores them. -/
@@ -60,14 +65,14 @@ variable (a b : Nat) (ha hb : Option Nat) (ma mb : Mode) (na nb : Bool) (m : Mod
 
 theorem resolve_add :
     (Value.expr (.numeric a ha ma na) (.numeric b hb mb nb) '+' m ae).resolve t =
-      if a + b > 65535 then .error .other else .ok (posNum (exprMode ma mb) (a + b)) := by
+      if a + b > 65535 then .error .other else .ok (posNum (resMode ma mb ((a + b : Nat) : Int)) (a + b)) := by
   rw [resolve_expr_numeric]
   have : modelArith '+' a b = some (((a + b : Nat) : Int)) := by simp [modelArith]
   rw [this]; exact numResult_ofNat _ _
 
 theorem resolve_add_ok (h : a + b ≤ 65535) :
     (Value.expr (.numeric a ha ma na) (.numeric b hb mb nb) '+' m ae).resolve t =
-      .ok (posNum (exprMode ma mb) (a + b)) := by
+      .ok (posNum (resMode ma mb ((a + b : Nat) : Int)) (a + b)) := by
   rw [resolve_add]; simp; omega
 
 theorem resolve_add_overflow (h : a + b > 65535) :
@@ -76,7 +81,7 @@ theorem resolve_add_overflow (h : a + b > 65535) :
 
 theorem resolve_sub_nonneg (h : b ≤ a) :
     (Value.expr (.numeric a ha ma na) (.numeric b hb mb nb) '-' m ae).resolve t =
-      if a - b > 65535 then .error .other else .ok (posNum (exprMode ma mb) (a - b)) := by
+      if a - b > 65535 then .error .other else .ok (posNum (resMode ma mb ((a - b : Nat) : Int)) (a - b)) := by
   rw [resolve_expr_numeric]
   have : modelArith '-' a b = some (((a - b : Nat) : Int)) := by
     have : (a : Int) - b = ((a - b : Nat) : Int) := by omega
@@ -90,11 +95,15 @@ theorem resolve_sub_neg (h : a < b) :
   have : modelArith '-' a b = some (-(((b - a : Nat) : Int))) := by
     have : (a : Int) - b = -((b - a : Nat) : Int) := by omega
     simp [modelArith, this]
-  rw [this]; exact numResult_negOfNat _ _ (by omega)
+  rw [this]
+  have hm : resMode ma mb (-(((b - a : Nat) : Int))) = exprMode ma mb := by
+    have : ¬ (-(((b - a : Nat) : Int)) > 255) := by omega
+    simp [resMode, this]
+  simp only [hm]; exact numResult_negOfNat _ _ (by omega)
 
 theorem resolve_mul :
     (Value.expr (.numeric a ha ma na) (.numeric b hb mb nb) '*' m ae).resolve t =
-      if a * b > 65535 then .error .other else .ok (posNum (exprMode ma mb) (a * b)) := by
+      if a * b > 65535 then .error .other else .ok (posNum (resMode ma mb ((a * b : Nat) : Int)) (a * b)) := by
   rw [resolve_expr_numeric]
   have : modelArith '*' a b = some (((a * b : Nat) : Int)) := by simp [modelArith]
   rw [this]; exact numResult_ofNat _ _
@@ -107,7 +116,7 @@ theorem resolve_div_zero :
 
 theorem resolve_div (h : b ≠ 0) :
     (Value.expr (.numeric a ha ma na) (.numeric b hb mb nb) '/' m ae).resolve t =
-      if a / b > 65535 then .error .other else .ok (posNum (exprMode ma mb) (a / b)) := by
+      if a / b > 65535 then .error .other else .ok (posNum (resMode ma mb ((a / b : Nat) : Int)) (a / b)) := by
   rw [resolve_expr_numeric]
   have : modelArith '/' a b = some (((a / b : Nat) : Int)) := by simp [modelArith, h]
   rw [this]; exact numResult_ofNat _ _
@@ -115,7 +124,7 @@ theorem resolve_div (h : b ≠ 0) :
 /-- a 16-bit dividend never overflows -/
 theorem resolve_div_ok (h : b ≠ 0) (hab : a ≤ 65535) :
     (Value.expr (.numeric a ha ma na) (.numeric b hb mb nb) '/' m ae).resolve t =
-      .ok (posNum (exprMode ma mb) (a / b)) := by
+      .ok (posNum (resMode ma mb ((a / b : Nat) : Int)) (a / b)) := by
   rw [resolve_div _ _ _ _ _ _ _ _ _ _ _ h]
   have : a / b ≤ a := Nat.div_le_self a b
   have : ¬ (a / b > 65535) := by omega
@@ -129,7 +138,9 @@ theorem resolve_other_op (op : Char) (h : opChar op = false) :
   rw [resolve_expr_numeric]
   simp only [opChar, Bool.or_eq_false_iff] at h
   have : modelArith op a b = some ((0 : Nat) : Int) := by simp [modelArith, h.1.1.1, h.1.1.2, h.1.2, h.2]
-  rw [this]; exact numResult_ofNat _ 0
+  rw [this]
+  have hm : resMode ma mb ((0 : Nat) : Int) = exprMode ma mb := by simp [resMode]
+  simp only [hm]; exact numResult_ofNat _ 0
 
 end numeric
 
@@ -402,6 +413,65 @@ theorem C04_finding_const_div_address (ss : List Stmt) (ai : Nat) (h : addrIntOf
       .ok (.numeric 5 (some 4) .extended false) := by
   rw [addrOffset_num_addr ss ai 100 20 _ _ _ _ _ _ '/' h]; rfl
 
+/-! ### the result mode (fix A13) and what is left of the sign (findings) -/
+
+/-- REPAIRED (A13): a sum of two direct-page values that leaves the direct page is an EXTENDED value with size hint 4
+(before the repair it stayed direct and the operand was truncated) -/
+theorem resolve_add_leaves_direct_page (a b : Nat) (ha hb : Option Nat) (ma mb : Mode) (na nb : Bool) (m : Mode)
+    (ae : Bool) (t : SymTab) (h1 : 256 ≤ a + b) (h2 : a + b ≤ 65535) :
+    (Value.expr (.numeric a ha ma na) (.numeric b hb mb nb) '+' m ae).resolve t =
+      .ok (.numeric (a + b) (some 4) .extended false) := by
+  rw [resolve_add_ok a b ha hb ma mb na nb m ae t h2]
+  have hm : resMode ma mb ((a + b : Nat) : Int) = .extended := by
+    have : ((a + b : Nat) : Int) > 255 := by omega
+    unfold resMode; rw [if_pos this]
+  rw [hm]; simp [posNum]
+
+/-- ... and a result that stays below 256 keeps the mode of its operands -/
+theorem resolve_add_stays (a b : Nat) (ha hb : Option Nat) (ma mb : Mode) (na nb : Bool) (m : Mode)
+    (ae : Bool) (t : SymTab) (h : a + b ≤ 255) :
+    (Value.expr (.numeric a ha ma na) (.numeric b hb mb nb) '+' m ae).resolve t =
+      .ok (posNum (exprMode ma mb) (a + b)) := by
+  rw [resolve_add_ok a b ha hb ma mb na nb m ae t (by omega)]
+  have hm : resMode ma mb ((a + b : Nat) : Int) = exprMode ma mb := by
+    have : ¬ ((a + b : Nat) : Int) > 255 := by omega
+    unfold resMode; rw [if_neg this]
+  rw [hm]
+
+/-- the hypotheses are met by what the parser builds for `$F0+$20` -/
+example : ∃ v, createV "$F0+$20".toList false false = .ok v ∧
+    v.resolve [] = .ok (.numeric 0x110 (some 4) .extended false) :=
+  ⟨.expr (.numeric 0xF0 (some 2) .direct false) (.numeric 0x20 (some 2) .direct false) '+' .extended false, rfl,
+    resolve_add_leaves_direct_page 0xF0 0x20 _ _ _ _ _ _ _ _ _ (by decide) (by decide)⟩
+
+/-- the same end to end: `LDA $F0+$20` is the extended `B6 01 10`, `LDA $10+$20` the direct `96 30` -/
+theorem C04_direct_sum_fixed :
+    asmOne "LDA" "$F0+$20" = some (3, [0xB6, 0x01, 0x10]) ∧ asmOne "LDA" "$10+$20" = some (2, [0x96, 0x30]) := by
+  decide +kernel
+
+/-- STILL A FINDING (remnant of A6 / A13): a NEGATIVE expression result loses its sign when it becomes a direct or
+extended operand (`resolve_symbols` rebuilds the value from its magnitude): `LDA 1-$FF` is `96 FE` (254, not −254
+which has no address), `LDA 1-2` is `96 01`; as an immediate the sign is kept (`LDA #1-2` is `86 FF`) -/
+theorem C04_finding_negative_result_loses_sign :
+    asmOne "LDA" "1-$FF" = some (2, [0x96, 0xFE]) ∧ asmOne "LDA" "1-2" = some (2, [0x96, 0x01]) ∧
+    asmOne "LDA" "#1-2" = some (2, [0x86, 0xFF]) ∧ asmOne "LDX" "#1-2" = some (3, [0x8E, 0xFF, 0xFF]) := by
+  decide +kernel
+
+/-- STILL A FINDING (C4): a symbol defined by `EQU` of an EXPRESSION has no value when it is used -/
+theorem C04_finding_equ_expression (fs : Files) :
+    assemble fs ["X EQU 1+2\n".toList, " LDA #X\n".toList] = .diag := progDiag_sound (by decide +kernel) fs
+
+/-- STILL A FINDING (C3): a label as a constant (non-PCR) index offset is rejected -/
+theorem C04_finding_label_index_offset (fs : Files) :
+    assemble fs ["L NOP\n".toList, " LDA L,X\n".toList] = .diag := progDiag_sound (by decide +kernel) fs
+
+/-- STILL A FINDING: a negative EQU constant is used as its magnitude (`X EQU -5`, `LDA #X` is `86 05`) -/
+theorem C04_finding_negative_equ (fs : Files) :
+    ∃ a, assemble fs ["X EQU -5\n".toList, " LDA #X\n".toList] = .ok a ∧ a.image = some [0x86, 0x05] := by
+  obtain ⟨a, ha, hc⟩ := progCheck_sound (check := fun a => a.image == some [0x86, 0x05])
+    (lines := ["X EQU -5\n".toList, " LDA #X\n".toList]) (by decide +kernel) fs
+  exact ⟨a, ha, by simpa using hc⟩
+
 /-! ### the full-strength statement, its refutation, and the part that holds -/
 
 /-- the signed value a numeric operand denotes -/
@@ -413,7 +483,8 @@ def arith (op : Char) (x y : Int) : Option Int :=
   else if y = 0 then none else some (x.tdiv y)
 
 /-- numeric part of C04 for operands with the given neg flags: the signed result when it lies in
-−32768..65535 (as magnitude plus neg flag, in the mode `exprMode`), an error otherwise -/
+−32768..65535 (as magnitude plus neg flag, in the mode `resMode`: extended above 255, else `exprMode`), an error
+otherwise -/
 def NumericArith (na nb : Bool) : Prop :=
   ∀ (a b : Nat) (ha hb : Option Nat) (ma mb : Mode) (op : Char) (m : Mode) (ae : Bool) (t : SymTab),
     opChar op = true →
@@ -421,7 +492,7 @@ def NumericArith (na nb : Bool) : Prop :=
     | some z =>
       if -32768 ≤ z ∧ z ≤ 65535 then
         ∃ h, (Value.expr (.numeric a ha ma na) (.numeric b hb mb nb) op m ae).resolve t =
-          .ok (.numeric z.natAbs h (exprMode ma mb) (decide (z < 0)))
+          .ok (.numeric z.natAbs h (resMode ma mb z) (decide (z < 0)))
       else (Value.expr (.numeric a ha ma na) (.numeric b hb mb nb) op m ae).resolve t = .error .other
     | none => (Value.expr (.numeric a ha ma na) (.numeric b hb mb nb) op m ae).resolve t = .error .other
 
@@ -525,6 +596,12 @@ example : ∃ v, createV "UNDEF+1".toList false false = .ok v ∧ v.resolve [] =
   ⟨.expr (.symbol "UNDEF".toList .none) (.numeric 1 (some 2) .direct false) '+' .extended false, rfl,
     resolve_undefined_left _ _ _ _ _ _ [] rfl⟩
 
-/-! ### axioms -/
-
 end CoCo.Props
+
+section axioms
+open CoCo.Props
+#print axioms C04_partial
+#print axioms C04_Statement_false
+#print axioms resolve_add_leaves_direct_page
+#print axioms C04_finding_equ_expression
+end axioms
